@@ -122,6 +122,19 @@ def worker(job):
         backend = ['dict', 'dict', 'maildir', 'maildir-fs'][k % 4]
         nsess = r.choice([1, 2, 2, 3])
         prog = l3.gen_program(r, nsess, r.randint(5, maxlen), PROFILE, uid_base=100 if backend == 'dict' else 0)
+        if nsess >= 2 and r.random() < 0.35:
+            # a COPY/MOVE by a session whose view is stale: another session has just expunged a message in the middle of the set
+            # (COPYUID must pair what was really copied)
+            base = 100 if backend == 'dict' else 0
+            st = l3.sel_state(prog, nsess)
+            both = [i for i in range(nsess) if st[i] and st[i][0] == 0 and not st[i][1]]
+            if len(both) < 2:
+                prog += [['select', 0, 0, False], ['select', 1, 0, False]]
+                both = [0, 1]
+            a, b = both[0], both[1]
+            prog += [['append', a, 0, [], 80 + j, 0, 0] for j in range(3)] + [['noop', a], ['noop', b], ['fetch', b, False, '1:*', ['UID', 'FLAGS']]]
+            prog += [['store', b, False, f'{r.choice(["*", "2", "1", "2:3"])}', 1, [3], False], ['expunge', b, None],
+                     ['copy', a, r.random() < 0.3, True, r.choice([f'{base + 1}:*', '1:*', f'{base + 1}:{base + 40}']), r.choice([1, 2]), 0]]
         cases.append((backend, nsess, prog))
     for backend, nsess, prog in cases:
         with guarded(part, f'C04 run {backend}', dict(backend=backend, nsess=nsess, program=prog)):
